@@ -534,7 +534,7 @@ def range_classes(lines, kern_export_only=False):
             first = not seen_measure
             if first or 'bar' in ks:
                 sp = [p['spine'] for p in paths]
-                if len(sp) != len(set(sp)) or ks & {'split', 'join', 'term'}:
+                if any(p['depth'] > 0 for p in paths) or len(sp) != len(set(sp)) or ks & {'split', 'join', 'term'}:
                     cl.add('start_inside_split')
             seen_measure = True
     return cl
